@@ -208,13 +208,13 @@ def compatible_edit(rng, text: str) -> str:
             toks[i] = base + str(rng.choice([1, 3, 7, 8, 9, 15, 16, 24, 31, 32, 33, 64]))
             return "".join(toks)
     if kind == "cap":
-        idx = [i for i, t in enumerate(toks) if t.isdigit() and i >= 1 and toks[i - 1] == "[" ]
+        idx = [i for i, t in enumerate(toks) if t.isdigit() and len(t) < 9 and i >= 1 and toks[i - 1] == "["]
         if idx:
             i = rng.choice(idx)
             toks[i] = str(int(toks[i]) + rng.randint(1, 3))
             return "".join(toks)
     if kind == "const":
-        m = list(re.finditer(r"^(const\s+\w+\s*=\s*)(\d+)\s*$", text, re.M))
+        m = list(re.finditer(r"^(const\s+\w+\s*=\s*)(\d{1,17})\s*$", text, re.M))
         if m:
             mm = rng.choice(m)
             return text[: mm.start(2)] + str(int(mm.group(2)) + rng.randint(1, 5)) + text[mm.end(2) :]
